@@ -815,6 +815,19 @@ fn step(rng: &mut Rng, sink: &mut Sink, w: &mut World, focus: &str) {
                     ));
                     w.track(&out, PendK::Issue);
                 }
+                _ if rng.chance(1, 2) => {
+                    // custody endpoints called directly by somebody who is not the service (an operator of the manager,
+                    // a minter, a stranger): giveToken / mint must hand out nothing
+                    let dest = user(rng.below(6) as u8);
+                    let amt = *rng.pick(&[1u128, 10, 100]);
+                    if rng.chance(2, 3) {
+                        sink.exec(&format!("tx {} {} giveToken 0 - {}", hex::encode(&who), hex::encode(&tm), args(&[dest.clone(), nat(amt)])));
+                    } else {
+                        sink.exec(&format!("tx {} {} mint 0 - {}", hex::encode(&who), hex::encode(&tm), args(&[dest.clone(), nat(amt)])));
+                    }
+                    sink.exec(&format!("bal {} {}", hex::encode(&dest), TOK));
+                    sink.exec(&format!("bal {} {}", hex::encode(&tm), TOK));
+                }
                 _ => {
                     let f = *rng.pick(&["transferMintership", "proposeMintership", "acceptMintership", "transferOperatorship", "addFlowLimiter"]);
                     sink.exec(&format!("tx {} {} {} 0 - {}", hex::encode(&who), hex::encode(&tm), f, args(&[user(rng.below(6) as u8)])));
@@ -1043,13 +1056,16 @@ fn step(rng: &mut Rng, sink: &mut Sink, w: &mut World, focus: &str) {
             match rng.below(6) {
                 0 | 1 => {
                     let t = rng.pick(&[TOK, MB, OTH, "bad"]).as_bytes().to_vec();
-                    let out = w.tx(sink, &caller, "registerTokenMetadata", gas, "-", &[t]);
+                    // the cross-chain gas of these operations is EGLD; now and then it is (wrongly) attached as a token
+                    let (e, es) = if rng.chance(1, 8) { (0u128, format!("{}:0:{}", rng.pick(&[OTH, TOK, EGLD_ESDT]), gas.max(3))) } else { (gas, "-".to_string()) };
+                    let out = w.tx(sink, &caller, "registerTokenMetadata", e, &es, &[t]);
                     w.track(&out, PendK::Props);
                 }
                 2 | 3 => {
                     let t = rng.pick(&[TOK, TOK, TOK, "EGLD", OTH, MB]).as_bytes().to_vec();
                     let chain = rng.pick(&[ETH.to_vec(), AVA.to_vec(), ETH.to_vec(), AVA.to_vec(), ETH.to_vec(), b"polygon".to_vec(), b"nowhere".to_vec(), CHAIN.to_vec(), vec![], HUB.to_vec()]).clone();
-                    let out = w.tx(sink, &caller, "deployRemoteCanonicalInterchainToken", gas, "-", &[t, chain]);
+                    let (e, es) = if rng.chance(1, 10) { (0u128, format!("{}:0:{}", rng.pick(&[OTH, TOK]), gas.max(3))) } else { (gas, "-".to_string()) };
+                    let out = w.tx(sink, &caller, "deployRemoteCanonicalInterchainToken", e, &es, &[t, chain]);
                     w.track(&out, PendK::Props);
                 }
                 _ => {
@@ -1125,7 +1141,14 @@ fn step(rng: &mut Rng, sink: &mut Sink, w: &mut World, focus: &str) {
             let deployer = if rng.chance(3, 4) { user(1) } else { caller.clone() };
             let minter = if rng.chance(2, 3) { user(4) } else { caller.clone() };
             let chain = rng.pick(&[ETH.to_vec(), ETH.to_vec(), AVA.to_vec(), b"nowhere".to_vec()]).clone();
-            let dm = rng.pick(&[b"0xRemoteMinter".to_vec(), b"0xOther".to_vec()]).clone();
+            // the destination minter: a remote address — or, now and then, the 32 bytes of a LOCAL account (the deployer
+            // himself, the local minter, the caller): naming yourself needs an approval like any other name
+            let dm = match rng.below(8) {
+                0 => deployer.clone(),
+                1 => caller.clone(),
+                2 => minter.clone(),
+                _ => rng.pick(&[b"0xRemoteMinter".to_vec(), b"0xOther".to_vec()]).clone(),
+            };
             match rng.below(13) {
                 11 | 12 => {
                     // the service itself is the minter (factory flow with a supply, stopped before the mint / hand-over
